@@ -32,26 +32,37 @@ def generator(repo):
     fn = [n for n in tree.body if isinstance(n, ast.FunctionDef) and n.name == 'power_spectrum']
     if not fn: raise Refuse('power_spectrum not found')
     env, grid, axes, noise, idx = {}, None, {}, None, {}
+    recognised, noise_var = set(), None
     for st in fn[0].body:
         if not isinstance(st, ast.Assign) or len(st.targets) != 1: continue
         t, v = st.targets[0], st.value
         if isinstance(t, ast.Tuple) and ast.unparse(v) == 'mask.shape':
             names = [e.id for e in t.elts]
             if len(names) != 2: raise Refuse('mask.shape unpacking')
-            env = {names[0]: 'rows', names[1]: 'cols'}
+            env = {names[0]: 'rows', names[1]: 'cols'}; recognised.add(id(st))
         elif isinstance(t, ast.Tuple) and isinstance(v, ast.Subscript) and ast.unparse(v.value) in ('np.mgrid', 'numpy.mgrid'):
             sl = v.slice.elts if isinstance(v.slice, ast.Tuple) else None
             if not sl or len(sl) != 2 or not all(isinstance(s, ast.Slice) and ast.unparse(s.lower) == '0' and isinstance(s.upper, ast.Name) for s in sl):
                 raise Refuse(f'mgrid: {ast.unparse(v)}')
             grid = (env[sl[0].upper.id], env[sl[1].upper.id])
             idx = {t.elts[0].id: 'i', t.elts[1].id: 'j'}          # first output varies along axis 0
+            recognised.add(id(st))
         elif isinstance(t, ast.Name) and t.id in idx and t.id not in axes:
-            axes[t.id] = _axis_expr(v, env, t.id)
+            axes[t.id] = _axis_expr(v, env, t.id); recognised.add(id(st))
         elif isinstance(t, ast.Name) and isinstance(v, ast.Call) and ast.unparse(v.func).endswith('.normal'):
             kw = {k.arg: k.value for k in v.keywords}
             if 'size' not in kw or not isinstance(kw['size'], (ast.List, ast.Tuple)) or len(kw['size'].elts) != 2: raise Refuse('noise size')
-            noise = tuple(env[e.id] for e in kw['size'].elts)
+            noise = tuple(env[e.id] for e in kw['size'].elts); noise_var = t.id; recognised.add(id(st))
     if grid is None or noise is None or len(axes) != 2: raise Refuse('power_spectrum: grid / noise statements not found')
+    # every other statement that (re)binds or writes a size, a grid variable or the noise array is outside the understood form
+    tracked = set(env) | set(idx) | {noise_var}
+    for st in ast.walk(fn[0]):
+        if not isinstance(st, (ast.Assign, ast.AugAssign, ast.AnnAssign, ast.For, ast.With, ast.Delete)) or id(st) in recognised: continue
+        tgts = st.targets if isinstance(st, (ast.Assign, ast.Delete)) else [st.target] if hasattr(st, 'target') else []
+        for t in tgts:
+            for nm in ast.walk(t):
+                if isinstance(nm, ast.Name) and nm.id in tracked:
+                    raise Refuse(f'power_spectrum: statement not understood: {ast.unparse(st)[:80]}')
     names = sorted(idx, key=lambda k: idx[k])     # variable along i first
     out = []
     out.append(f'/-- shape of `np.mgrid[...]` (frequency grid, PSD, filter H) for a mask of shape (rows, cols) -/\ndef psGridShape (rows cols : Int) : Int × Int := ({grid[0]}, {grid[1]})\n')
